@@ -1063,6 +1063,15 @@ lp_upolynomial_t* lp_upolynomial_gcd(const lp_upolynomial_t* p, const lp_upolyno
   } else {
     if (p->K == lp_Z) {
       gcd = upolynomial_gcd_heuristic(p, q, 2);
+#ifdef LIBPOLY_VERIF
+      {
+        extern int lp_verif_flags;
+        if (gcd && (lp_verif_flags & 1)) {
+          lp_upolynomial_delete(gcd);
+          gcd = 0;
+        }
+      }
+#endif
       if (!gcd) {
         gcd = upolynomial_gcd_subresultant(p, q);
       }
